@@ -139,7 +139,7 @@ Definition control (m : smod) (s : pst) (c : ctl) : pst * Z :=
   | Seek t => x_seek m s t
   | Stop => (set_pos s (-2), 0)
   | Restart => ({| pos := -1; ord := ord s; row := row s; frame := frame s; repos := repos s; sq := sq s; loopc := 0; speed := speed s;
-                   num_rows := num_rows s; end_point := end_point s; fl := fl s |}, 0)
+                   num_rows := num_rows s; end_point := end_point s; fl := flow_reset |}, 0)
   end.
 
 (* ---- xmp_play_frame ---- *)
